@@ -74,6 +74,13 @@ def handle (ws : List String) : String :=
       (match parseFloat? rho, frs.mapM parseFloat? with
        | some r, some fs => "ok " ++ " ".intercalate ((rescaleFractions fs r).map fun v => toString v.toBits)
        | _, _ => "err bad-number")
+  | "hexaxial" :: nums =>
+      -- hexLatticeBaseVectors, third vector: vertex, (p7, n7), (p8, n8), axis — 18 doubles
+      (match nums.mapM parseFloat? with
+       | some [vx, vy, vz, p7x, p7y, p7z, n7x, n7y, n7z, p8x, p8y, p8z, n8x, n8y, n8z, ax, ay, az] =>
+           let r := hexAxialVector (α := Float) ⟨vx, vy, vz⟩ ⟨p7x, p7y, p7z⟩ ⟨n7x, n7y, n7z⟩ ⟨p8x, p8y, p8z⟩ ⟨n8x, n8y, n8z⟩ ⟨ax, ay, az⟩
+           s!"ok {r.x.toBits} {r.y.toBits} {r.z.toBits}"
+       | _ => "err bad-number")
   | ["latmodel", hx] =>
       match unhex hx >>= Sexp.parse with
       | some s => runLattice s
